@@ -66,6 +66,7 @@ theorem writeHtml_noMeta_nonstr (v : V) : NoMeta (writeHtml v) := by
   cases v with
   | str s safe => exact escapeStr_noMeta s
   | seq xs => exact htmlEscape_noMeta _
+  | map kvs => exact htmlEscape_noMeta _
   | int n => exact ofDataL_noMeta (intChars_noMeta n)
   | bool b =>
     cases b
@@ -110,10 +111,14 @@ mutual
 def V.safeLeaves : V → List TStr
   | .str s true => [s]
   | .seq xs => V.safeLeavesL xs
+  | .map kvs => V.safeLeavesM kvs
   | _ => []
 def V.safeLeavesL : List V → List TStr
   | [] => []
   | x :: xs => x.safeLeaves ++ V.safeLeavesL xs
+def V.safeLeavesM : List (String × V) → List TStr
+  | [] => []
+  | (_, v) :: kvs => v.safeLeaves ++ V.safeLeavesM kvs
 end
 
 theorem mem_safeLeavesL {xs : List V} {l : TStr} : l ∈ V.safeLeavesL xs ↔ ∃ x ∈ xs, l ∈ x.safeLeaves := by
@@ -130,6 +135,17 @@ theorem inv_iff_leaves : ∀ v : V, v.Inv ↔ ∀ l ∈ v.safeLeaves, Clean l
   | .none => by simp [V.Inv, V.safeLeaves]
   | .undef => by simp [V.Inv, V.safeLeaves]
   | .seq xs => by simp only [V.Inv, V.safeLeaves]; exact invL_iff_leaves xs
+  | .map kvs => by simp only [V.Inv, V.safeLeaves]; exact invM_iff_leaves kvs
+theorem invM_iff_leaves : ∀ kvs : List (String × V), V.InvM kvs ↔ ∀ l ∈ V.safeLeavesM kvs, Clean l
+  | [] => by simp [V.InvM, V.safeLeavesM]
+  | (k, v) :: kvs => by
+    simp only [V.InvM, V.safeLeavesM, List.mem_append]
+    rw [inv_iff_leaves v, invM_iff_leaves kvs]
+    constructor
+    · rintro ⟨h1, h2⟩ l (h | h)
+      · exact h1 l h
+      · exact h2 l h
+    · intro h; exact ⟨fun l hl => h l (Or.inl hl), fun l hl => h l (Or.inr hl)⟩
 theorem invL_iff_leaves : ∀ xs : List V, V.InvL xs ↔ ∀ l ∈ V.safeLeavesL xs, Clean l
   | [] => by simp [V.InvL, V.safeLeavesL]
   | x :: xs => by
@@ -226,7 +242,72 @@ theorem charsF_inv : InvPreserving charsF := by
     obtain ⟨c, _, rfl⟩ := hx
     exact inv_str_false _
   · rename_i xs; cases hr; exact hargs (.seq xs) (by simp)
+  · cases hr
+    apply inv_seq.mpr
+    intro x hx
+    simp only [List.mem_map] at hx
+    obtain ⟨c, _, rfl⟩ := hx
+    exact inv_str_false _
   · cases hr; exact inv_seq.mpr (by intro x hx; cases hx)
+  · cases hr; exact inv_seq.mpr (by intro x hx; cases hx)
+  · cases hr
+
+theorem invM_iff {kvs : List (String × V)} : V.InvM kvs ↔ ∀ kv ∈ kvs, kv.2.Inv := by
+  induction kvs with
+  | nil => simp [V.InvM]
+  | cons kv kvs ih => obtain ⟨k, v⟩ := kv; simp [V.InvM, ih]
+
+theorem inv_map {kvs : List (String × V)} : (V.map kvs).Inv ↔ ∀ kv ∈ kvs, kv.2.Inv := by
+  simp only [V.Inv]; exact invM_iff
+
+theorem lookup_mem_pair {kvs : List (String × V)} {k : String} {v : V} (h : kvs.lookup k = some v) :
+    (k, v) ∈ kvs ∨ ∃ k', (k', v) ∈ kvs := by
+  induction kvs with
+  | nil => simp [List.lookup] at h
+  | cons p ps ih =>
+    obtain ⟨a, b⟩ := p
+    simp only [List.lookup] at h
+    split at h
+    · cases h; exact Or.inr ⟨a, List.mem_cons_self⟩
+    · rcases ih h with h | ⟨k', h⟩
+      · exact Or.inl (List.mem_cons_of_mem _ h)
+      · exact Or.inr ⟨k', List.mem_cons_of_mem _ h⟩
+
+theorem attrF_inv (key : String) : InvPreserving (attrF key) := by
+  intro args r hargs hr
+  unfold attrF at hr
+  split at hr
+  · rename_i kvs
+    cases hr
+    have hm := inv_map.mp (hargs (.map kvs) (by simp))
+    cases hl : kvs.lookup key with
+    | none => exact inv_undef
+    | some v =>
+      simp only [Option.getD_some]
+      rcases lookup_mem_pair hl with h | ⟨k', h⟩
+      · exact hm _ h
+      · exact hm _ h
+  · cases hr
+  · cases hr; exact inv_undef
+  · cases hr
+
+theorem itemsF_inv : InvPreserving itemsF := by
+  intro args r hargs hr
+  unfold itemsF at hr
+  split at hr
+  · rename_i kvs
+    cases hr
+    have hm := inv_map.mp (hargs (.map kvs) (by simp))
+    apply inv_seq.mpr
+    intro x hx
+    simp only [List.mem_map] at hx
+    obtain ⟨kv, hkv, rfl⟩ := hx
+    apply inv_seq.mpr
+    intro y hy
+    simp only [List.mem_cons, List.not_mem_nil, or_false] at hy
+    rcases hy with rfl | rfl
+    · exact inv_str_false _
+    · exact hm kv hkv
   · cases hr
 
 theorem escapeF_inv : InvPreserving (escapeF .html) := by
@@ -410,6 +491,14 @@ theorem iterItems_inv {v : V} {items : List V} (hv : v.Inv) (h : iterItems v = s
     simp only [List.mem_map] at hx
     obtain ⟨c, _, rfl⟩ := hx
     exact inv_str_false _
+  | map kvs =>
+    simp only [iterItems, Option.some.injEq] at h; subst h
+    intro x hx
+    simp only [List.mem_map] at hx
+    obtain ⟨c, _, rfl⟩ := hx
+    exact inv_str_false _
+  | undef => simp only [iterItems, Option.some.injEq] at h; subst h; intro x hx; cases hx
+  | none => simp only [iterItems, Option.some.injEq] at h; subst h; intro x hx; cases hx
   | _ => simp [iterItems] at h
 
 theorem joinGo_inv {v : V} {j : Option StrIn} {r : V} (hv : v.Inv)
@@ -495,6 +584,7 @@ theorem fmtValue_clean {sp : Spec} {v : V} {t : TStr} (hv : FmtOK v) (h : fmtVal
   | none => exact fmtStr_clean hv h
   | undef => exact fmtStr_clean hv h
   | seq xs => exact fmtStr_clean hv h
+  | map kvs => exact fmtStr_clean hv h
 
 theorem mem_dropFlag {s : TStr} {ch : TChar} (h : ch ∈ (dropFlag s).2) : ch ∈ s := by
   unfold dropFlag at h
@@ -606,6 +696,7 @@ theorem formatF_inv : InvPreserving (formatF .html) := by
           | none => simp [isSafeV, isScalar] at hsc
           | undef => simp [isSafeV, isScalar] at hsc
           | seq xs => simp [isSafeV, isScalar] at hsc
+          | map kvs => simp [isSafeV, isScalar] at hsc
         · cases h
           exact (escapeWrite_html_noMeta _).clean
     · simp only [Option.map_eq_some_iff] at hr
@@ -784,5 +875,173 @@ theorem args_inv {st : St} {is : List Nat} {xs : List V} (h : StInv st) (ha : st
   refine mapM_all (P := V.Inv) ha ?_
   intro i _ b hb
   exact h.1 b (List.mem_of_getElem? hb)
+
+theorem insertKV_inv {k : String} {v : V} (hv : v.Inv) :
+    ∀ (l : List (String × V)), (∀ kv ∈ l, kv.2.Inv) → ∀ kv ∈ insertKV k v l, kv.2.Inv := by
+  intro l
+  induction l with
+  | nil => intro _ kv h; simp only [insertKV, List.mem_singleton] at h; subst h; exact hv
+  | cons p ps ih =>
+    obtain ⟨k', v'⟩ := p
+    intro hl kv h
+    simp only [insertKV] at h
+    split at h
+    · rcases List.mem_cons.mp h with rfl | h
+      · exact hv
+      · exact hl kv h
+    · split at h
+      · rcases List.mem_cons.mp h with rfl | h
+        · exact hv
+        · exact hl kv (List.mem_cons_of_mem _ h)
+      · rcases List.mem_cons.mp h with rfl | h
+        · exact hl _ List.mem_cons_self
+        · exact ih (fun x hx => hl x (List.mem_cons_of_mem _ hx)) kv h
+
+theorem foldl_insertKV_inv : ∀ (kvs acc : List (String × V)), (∀ kv ∈ kvs, kv.2.Inv) → (∀ kv ∈ acc, kv.2.Inv) →
+    ∀ kv ∈ kvs.foldl (fun acc kv => insertKV kv.1 kv.2 acc) acc, kv.2.Inv := by
+  intro kvs
+  induction kvs with
+  | nil => intro acc _ ha; simpa using ha
+  | cons p ps ih =>
+    intro acc hk ha
+    simp only [List.foldl_cons]
+    exact ih _ (fun x hx => hk x (List.mem_cons_of_mem _ hx)) (insertKV_inv (hk p List.mem_cons_self) acc ha)
+
+/-- a step of the safe-marking-free fragment while HTML auto-escaping is in effect -/
+def StepOk : Step → Prop
+  | .emit m _ => m = .html
+  | .apply g _ => InvPreserving g
+  | .value v => v.Inv
+  | _ => True
+
+
+/-- each primitive step of the fragment maps a state satisfying the invariant (all registers `Inv`,
+    every capture buffer and the output free of data-tainted metacharacters) to such a state -/
+theorem step_preserves_inv (s : Step) (st st' : St) (hok : StepOk s) (h : StInv st)
+    (hr : s.run st = some st') : StInv st' := by
+  cases s with
+  | data x => simp only [Step.run, Option.some.injEq] at hr; subst hr; exact h.push (inv_str_false _)
+  | int n => simp only [Step.run, Option.some.injEq] at hr; subst hr; exact h.push (inv_int n)
+  | bool b => simp only [Step.run, Option.some.injEq] at hr; subst hr; exact h.push (inv_bool b)
+  | none => simp only [Step.run, Option.some.injEq] at hr; subst hr; exact h.push inv_none
+  | undef => simp only [Step.run, Option.some.injEq] at hr; subst hr; exact h.push inv_undef
+  | mkSeq is =>
+    simp only [Step.run, Option.map_eq_some_iff] at hr
+    obtain ⟨xs, hxs, rfl⟩ := hr
+    exact h.push (inv_seq.mpr (args_inv h hxs))
+  | mkMap kis =>
+    simp only [Step.run, Option.map_eq_some_iff] at hr
+    obtain ⟨kvs, hkvs, rfl⟩ := hr
+    refine h.push (inv_map.mpr ?_)
+    have hall : ∀ kv ∈ kvs, kv.2.Inv := by
+      unfold St.kvArgs at hkvs
+      refine mapM_all (P := fun kv : String × V => kv.2.Inv) hkvs ?_
+      intro ki _ b hb
+      simp only [Option.map_eq_some_iff] at hb
+      obtain ⟨v, hv, rfl⟩ := hb
+      exact h.1 v (List.mem_of_getElem? hv)
+    exact foldl_insertKV_inv kvs [] hall (by intro kv hkv; cases hkv)
+  | value v => simp only [Step.run, Option.some.injEq] at hr; subst hr; exact h.push hok
+  | raw x => simp only [Step.run, Option.some.injEq] at hr; subst hr; exact h.write (Clean.ofTmpl x)
+  | emit m i =>
+    simp only [StepOk] at hok; subst hok
+    simp only [Step.run, Option.map_eq_some_iff] at hr
+    obtain ⟨v, hv, rfl⟩ := hr
+    exact h.write (writeEscaped_html_clean (h.1 v (List.mem_of_getElem? hv)))
+  | beginCapture =>
+    simp only [Step.run, Option.some.injEq] at hr; subst hr
+    refine ⟨h.1, ?_, h.2.2⟩
+    intro b hb
+    rcases List.mem_cons.mp hb with rfl | hb
+    · exact Clean.nil
+    · exact h.2.1 b hb
+  | endCapture m =>
+    simp only [Step.run] at hr
+    split at hr
+    · rename_i buf rest heq
+      cases hr
+      have hc := h.2.1
+      rw [heq] at hc
+      have base : StInv { st with caps := rest } :=
+        ⟨h.1, fun b hb => hc b (List.mem_cons_of_mem _ hb), h.2.2⟩
+      exact base.push (inv_str fun _ => hc buf List.mem_cons_self)
+    · cases hr
+  | macroReturn m =>
+    simp only [Step.run] at hr
+    split at hr
+    · rename_i buf rest heq
+      cases hr
+      have hc := h.2.1
+      rw [heq] at hc
+      have base : StInv { st with caps := rest } :=
+        ⟨h.1, fun b hb => hc b (List.mem_cons_of_mem _ hb), h.2.2⟩
+      exact base.push (inv_str fun _ => hc buf List.mem_cons_self)
+    · cases hr
+  | apply g is =>
+    simp only [Step.run] at hr
+    split at hr
+    · cases hr
+    · rename_i xs hxs
+      simp only [Option.map_eq_some_iff] at hr
+      obtain ⟨r, hg, rfl⟩ := hr
+      exact h.push (hok xs r (args_inv h hxs) hg)
+
+theorem run_preserves_inv : ∀ (steps : List Step) (st st' : St), (∀ s ∈ steps, StepOk s) → StInv st →
+    run steps st = some st' → StInv st'
+  | [], st, st', _, h, hr => by simp only [run, Option.some.injEq] at hr; subst hr; exact h
+  | s :: rest, st, st', hok, h, hr => by
+    simp only [run] at hr
+    split at hr
+    · cases hr
+    · rename_i st1 h1
+      exact run_preserves_inv rest st1 st' (fun x hx => hok x (List.mem_cons_of_mem _ hx))
+        (step_preserves_inv s st st1 (hok s List.mem_cons_self) h h1) hr
+
+
+/-- every operator and filter model the driver can run in Html mode and that belongs to the
+    fragment preserves the invariant (so `StepOk (.apply g _)` holds for it) -/
+theorem named_models_preserve_inv (name : String) (ps : List Nat) (g : Fn)
+    (h : lookupBase name .html ps = some (g, true)) : InvPreserving g := by
+  unfold lookupBase at h
+  split at h <;> first
+    | (cases h; exact concatF_inv)
+    | (cases h; exact addF_inv)
+    | (cases h; exact repeatF_inv _)
+    | (cases h; exact sliceF_inv _ _)
+    | (cases h; exact elemF_inv _)
+    | (cases h; exact charsF_inv)
+    | (cases h; exact escapeF_inv)
+    | (cases h; exact preserveF_inv (reflects_mapChars upperC_reflecting))
+    | (cases h; exact preserveF_inv (reflects_mapChars lowerC_reflecting))
+    | (cases h; exact preserveF_inv reflects_capitalize)
+    | (cases h; exact normalOut_inv (normalF_normalOut _))
+    | (cases h; exact trimF_inv)
+    | (cases h; exact reverseF_inv)
+    | (cases h; exact preserveF_inv (reflects_indent _ _ _))
+    | (cases h; exact replaceF_inv)
+    | (cases h; exact joinF_inv)
+    | (cases h; exact formatF_inv)
+    | (cases h; exact truncateF_inv _ _ _)
+    | (cases h; exact splitF_inv _)
+    | (cases h; exact piecesF_inv subPieces_lines)
+    | (cases h; exact firstF_inv)
+    | (cases h; exact lastF_inv)
+    | (cases h; exact defaultF_inv _)
+    | (cases h; exact stringF_inv)
+    | (cases h; exact lengthF_inv)
+    | (cases h)
+
+/-- … and so does `map` with any such filter -/
+theorem named_models_preserve_inv_map (name : String) (ps : List Nat) (g : Fn)
+    (h : lookupF name .html ps = some (g, true)) : InvPreserving g := by
+  unfold lookupF at h
+  split at h
+  · simp only [Option.map_eq_some_iff] at h
+    obtain ⟨⟨g0, ok⟩, h0, h1⟩ := h
+    simp only [Prod.mk.injEq] at h1
+    obtain ⟨rfl, rfl⟩ := h1
+    exact mapF_inv (named_models_preserve_inv _ ps g0 h0)
+  · exact named_models_preserve_inv name ps g h
+
 
 end MJ.Safe
